@@ -63,8 +63,13 @@ int main(int argc, char **argv) {
     while (t->hasNext()) { uint len; unsigned char *s = t->next(&len); if (k >= n || len != S[k].size() || memcmp(s, S[k].c_str(), len + 1)) VIOLATED("table scan element %zu", k); delete[] s; k++; }
     if (k != n) VIOLATED("table scan yields %zu of %zu", k, n); delete t; }
   // query pattern
-  if (a.has("in_qlen")) {
-    unsigned ql = a.u("in_qlen");
+  std::string ob = a.str("ob");
+  bool needs_pattern = ob == "pfc_absent" || ob == "pfc_prefix" || ob == "pfc_extractPrefix";
+  if (needs_pattern && !a.has("in_q[0]")) { printf("the counterexample carries no query pattern\n"); return 2; }
+  if (a.has("in_qlen") || a.has("in_q[0]")) {
+    unsigned ql = 0;
+    if (a.has("in_qlen")) ql = a.u("in_qlen");
+    else { for (;; ql++) { char k[64]; snprintf(k, sizeof k, "in_q[%u]", ql); if (!a.has(k) || (a.u(k) & 255) == 0) break; } }
     std::vector<unsigned char> q;
     for (unsigned j = 0; j < ql; j++) { char k[64]; snprintf(k, sizeof k, "in_q[%u]", j); unsigned c = a.has(k) ? (a.u(k) & 255) : 0; if (!c) { printf("pattern byte %u missing\n", j); return 2; } q.push_back(c); }
     q.push_back(0);
